@@ -89,3 +89,4 @@ def outList {α} (f : α → String) (l : List α) : String :=
 def outLines (l : List Text) : String := outList outText l
 
 end Pel.Proto
+
